@@ -248,7 +248,7 @@ func (vc *FnVC) resolveLocal(e *Env, name string) (*Val, error) {
 		if obj.Name() != name {
 			continue
 		}
-		if _, isVar := obj.(*types.Var); !isVar {
+		if v, isVar := obj.(*types.Var); !isVar || v.IsField() {
 			continue
 		}
 		for i := range bs {
